@@ -23,7 +23,7 @@ def examples(tier):
 
 
 def strategy(tier):
-    return gen_store.case(CLASSES, WEIGHTS, max_ops=40, macros=4, extra=6)
+    return gen_store.case(CLASSES, WEIGHTS, max_ops=40, macros=4, extra=9)
 
 
 class CapacityOracle(Oracle):
